@@ -1132,6 +1132,15 @@ def _put_slice_stmtlike_old(
 
         if put_fst:  # maybe empty put to `orelse` or `finalbody` was converted to delete
             put_fst_lines = put_fst._lines
+
+            if (l := put_fst_lines[-1]) and l.isspace():  # whitespace-only last line is the same as ending with a newline, otherwise it would wind up prepended to whatever follows the put and change its indentation
+                put_fst_lines[-1] = bistr('')
+
+                if getattr(put_fst.a, 'end_lineno', None) == len(put_fst_lines):  # SPECIAL SLICE root has explicit end position
+                    put_fst.a.end_col_offset = 0
+
+                put_fst._touch()
+
             put_fst_end_nl = not put_fst_lines[-1]
 
     if not len_slice and (not put_fst or (not put_body and len(put_fst_lines) == 1 and not put_fst_lines[0])):  # deleting empty slice or assigning empty fst to empty slice, noop
